@@ -86,6 +86,129 @@ pub const SPECIAL_GOS: &[&str] = &["go depth 1", "go depth 2", "go depth 3", "go
 
 pub const HORIZON_S: u64 = 60;
 
+/// "Ghost twins": for a move that changes more than the mover's square (castling: the rook moves
+/// too; en passant: the captured pawn is not on the destination square; double push: a target is
+/// set), the position reached by the move and the valid position that differs from it by exactly
+/// the part a move-by-move update could forget (rook still at home, victim still there, no target).
+/// A search of the first position caches results for the true child; the ghost searched next in the
+/// same process must get an answer that is legal in the ghost. Returns (position, ghost) pairs.
+pub fn ghost_twins() -> Vec<(Pos, Pos)> {
+    use crate::refchess::{file_of, rank_of, sq_at, Kind, Side};
+    let mut bases: Vec<Pos> = Vec::new();
+    // castling: K e1 with both rooks and both rights, a white knight far away, the black king on
+    // every square, alone or with a bishop / rook that gives it replies along lines the rook changes
+    for bk in 0..64u8 {
+        for extra in 0..4 {
+            let mut p = Pos::empty();
+            p.sq[4] = Some((Side::W, Kind::K));
+            p.sq[0] = Some((Side::W, Kind::R));
+            p.sq[7] = Some((Side::W, Kind::R));
+            p.castle = [true, true, false, false];
+            if p.sq[bk as usize].is_some() {
+                continue;
+            }
+            p.sq[bk as usize] = Some((Side::B, Kind::K));
+            let (sq, man) = match extra {
+                0 => (255usize, Kind::B),
+                1 => (36usize, Kind::B), // e5
+                2 => (50usize, Kind::R), // c7
+                _ => (21usize, Kind::N), // f3 is attacked..: use f6 instead below
+            };
+            let sq = if extra == 3 { 45 } else { sq };
+            if sq != 255 {
+                if p.sq[sq].is_some() {
+                    continue;
+                }
+                p.sq[sq] = Some((Side::B, man));
+            }
+            p.stm = Side::W;
+            if p.validity().is_ok() {
+                bases.push(p);
+            }
+        }
+    }
+    // en passant: white pawn e5, black pawn d5 just pushed, a black rook behind it on d8, kings around
+    for wk in [0u8, 6, 16, 23, 4] {
+        for bk in [63u8, 57, 47, 40, 62, 55] {
+            for rook in [59usize, 3usize, 255usize] {
+                let mut p = Pos::empty();
+                p.sq[36] = Some((Side::W, Kind::P)); // e5
+                p.sq[35] = Some((Side::B, Kind::P)); // d5
+                if wk == bk || p.sq[wk as usize].is_some() || p.sq[bk as usize].is_some() {
+                    continue;
+                }
+                p.sq[wk as usize] = Some((Side::W, Kind::K));
+                p.sq[bk as usize] = Some((Side::B, Kind::K));
+                if rook != 255 {
+                    if p.sq[rook].is_some() {
+                        continue;
+                    }
+                    p.sq[rook] = Some((Side::B, Kind::R));
+                }
+                p.ep = Some(43); // d6
+                p.stm = Side::W;
+                if p.validity().is_ok() {
+                    bases.push(p);
+                }
+            }
+        }
+    }
+    // double pushes: kings and a pawn on its home square next to an enemy pawn that could take en passant
+    for wk in [4u8, 0, 23] {
+        for bk in [60u8, 63, 40] {
+            let mut p = Pos::empty();
+            p.sq[12] = Some((Side::W, Kind::P)); // e2
+            p.sq[27] = Some((Side::B, Kind::P)); // d4
+            p.sq[29] = Some((Side::B, Kind::P)); // f4
+            if p.sq[wk as usize].is_some() || p.sq[bk as usize].is_some() {
+                continue;
+            }
+            p.sq[wk as usize] = Some((Side::W, Kind::K));
+            p.sq[bk as usize] = Some((Side::B, Kind::K));
+            p.stm = Side::W;
+            if p.validity().is_ok() {
+                bases.push(p);
+            }
+        }
+    }
+    let mut out: Vec<(Pos, Pos)> = Vec::new();
+    for base in bases {
+        for q in [base.clone(), base.mirror()] {
+            for m in q.legal_moves() {
+                let (_, kind) = q.sq[m.from as usize].unwrap();
+                let c = q.make(m);
+                let mut g = c.clone();
+                let df = (file_of(m.to) - file_of(m.from)).abs();
+                let dr = (rank_of(m.to) - rank_of(m.from)).abs();
+                if kind == Kind::K && df == 2 {
+                    // castling: put the rook back
+                    let r = rank_of(m.from);
+                    let (home, now) = if file_of(m.to) == 6 { (sq_at(7, r).unwrap(), sq_at(5, r).unwrap()) } else { (sq_at(0, r).unwrap(), sq_at(3, r).unwrap()) };
+                    g.sq[home as usize] = g.sq[now as usize];
+                    g.sq[now as usize] = None;
+                } else if kind == Kind::P && df == 1 && q.sq[m.to as usize].is_none() {
+                    // en passant: the victim stays
+                    let v = sq_at(file_of(m.to), rank_of(m.from)).unwrap();
+                    g.sq[v as usize] = Some((q.stm.other(), Kind::P));
+                } else if kind == Kind::P && dr == 2 {
+                    if c.ep.is_none() {
+                        continue;
+                    }
+                    g.ep = None;
+                } else {
+                    continue;
+                }
+                if g.validity().is_ok() && !g.legal_moves().is_empty() && g != c {
+                    out.push((q.clone(), g));
+                }
+            }
+        }
+    }
+    out
+}
+
+
+
 pub fn model_position(cmd: &str) -> Pos {
     let toks: Vec<&str> = cmd.split_whitespace().collect();
     let (mut p, rest) = if toks.get(1) == Some(&"startpos") { (Pos::start(), &toks[2..]) } else { (Pos::from_fen(&toks[2..8].join(" ")).unwrap(), &toks[8..]) };
@@ -376,6 +499,44 @@ pub fn run(tier: &str, seed: u64, out: &str, exe: &str) {
         );
     }
 
+    // ---- (h) ghost twins: a position in which castling / en passant / a double push is possible
+    // is searched, then the valid position that differs from the move's true result by what a
+    // move-by-move update could forget, in the same process (and the other way round)
+    if !rep.saturated() {
+        let twins = ghost_twins();
+        if twins.len() < 100 {
+            eprintln!("MACHINERY ERROR: C03 ghost twins: only {} pairs built", twins.len());
+            std::process::exit(2);
+        }
+        let mut jobs: Vec<Vec<String>> = Vec::new();
+        for (p, g) in &twins {
+            let pc = format!("position fen {}", p.fen(0, 1));
+            let gc = format!("position fen {}", g.fen(0, 1));
+            jobs.push(vec![pc.clone(), "go depth 4".into(), gc.clone(), "go depth 3".into(), gc.clone(), "go depth 1".into()]);
+            jobs.push(vec![pc.clone(), "go depth 3".into(), gc.clone(), "go depth 2".into(), gc.clone(), "go depth 1".into()]);
+            if thorough {
+                jobs.push(vec![gc.clone(), "go depth 4".into(), pc.clone(), "go depth 3".into(), pc.clone(), "go depth 1".into()]);
+                jobs.push(vec![pc.clone(), "go depth 5".into(), gc.clone(), "go depth 4".into(), gc.clone(), "go depth 2".into()]);
+            }
+        }
+        let res: Vec<bool> = par_map(&jobs, |h| {
+            if rep.saturated() {
+                return false;
+            }
+            runs.fetch_add(1, Ordering::Relaxed);
+            gos.fetch_add(h.iter().filter(|s| s.starts_with("go")).count() as u64, Ordering::Relaxed);
+            check_history(&rep, exe, h)
+        });
+        eprintln!("[C03] ghost twins: {} pairs, {} histories, {} as expected ({:.1}s)", twins.len(), jobs.len(), res.iter().filter(|x| **x).count(), rep.elapsed());
+        samples.push(J::Str(jobs[jobs.len() / 2].join(" | ")));
+        parts.push(
+            J::obj()
+                .set("part", "h: ghost twins: a position with castling / en passant / a double push available, then (same process) the valid position that differs from the move's result by exactly what an incremental update could forget (rook still at home, captured pawn still there, no en-passant target)")
+                .set("pairs", twins.len())
+                .set("runs", jobs.len()),
+        );
+    }
+
     // ---- (f) a search at the end of a very long game (every position of the game is recorded for
     // the repetition rule: whatever holds that record must hold thousands of plies), for several
     // lengths around the powers of two
@@ -445,10 +606,16 @@ pub fn run(tier: &str, seed: u64, out: &str, exe: &str) {
     // ---- (d) single searches of many positions: every special root (with colour mirrors) and
     // bare-material positions x every go set (thorough: also every state one ply from a root)
     if !rep.saturated() {
-        let roots = crate::roots::all_roots().unwrap_or_else(|e| {
+        let mut roots = crate::roots::all_roots().unwrap_or_else(|e| {
             eprintln!("MACHINERY ERROR: {}", e);
             std::process::exit(2)
         });
+        // positions with move lists as long as chess allows (218 legal moves, 132 tactical moves):
+        // a root list or an ordering buffer of fixed capacity must still yield a legal answer
+        roots.extend(crate::roots::extreme_roots().unwrap_or_else(|e| {
+            eprintln!("MACHINERY ERROR: {}", e);
+            std::process::exit(2)
+        }));
         let mut fens: Vec<String> = roots.iter().map(|r| r.pos.fen(0, 1)).collect();
         for f in BARE {
             let p = Pos::from_fen(f).unwrap();
